@@ -118,6 +118,11 @@ type UFmtSafeValue struct{ ID int }
 func (u UFmtSafeValue) Format(s fmt.State, verb rune) { runFormatMethod(u.ID, s, verb) }
 func (UFmtSafeValue) SafeValue()                      {}
 
+// Stringer of a type registered with RegisterSafeType (in the configurations that register)
+type URegStringer struct{ ID int }
+
+func (u URegStringer) String() string { return runStringMethod(u.ID) }
+
 // ifaces flags in the order of the model: SafeFormatter, SafeMessager, error, Formatter, GoStringer, Stringer
 type userKind struct {
 	name   string
@@ -152,4 +157,6 @@ var userKinds = []userKind{
 		func(id int) interface{} { return UStrGoStr{id} }, func(id int) interface{} { return &UStrGoStr{id} }, func() interface{} { return (*UStrGoStr)(nil) }},
 	{"UFmtSafeValue", [6]bool{false, false, false, true, false, false},
 		func(id int) interface{} { return UFmtSafeValue{id} }, func(id int) interface{} { return &UFmtSafeValue{id} }, func() interface{} { return (*UFmtSafeValue)(nil) }},
+	{"URegStringer", [6]bool{false, false, false, false, false, true},
+		func(id int) interface{} { return URegStringer{id} }, func(id int) interface{} { return &URegStringer{id} }, func() interface{} { return (*URegStringer)(nil) }},
 }
